@@ -5,9 +5,9 @@ CONSTANTS
   MaxT = 3
   CoefVals = {1}
   MsgVals = {1}
-  Kinds = {"ok", "bad", "stale"}
+  Kinds = {"ok", "bad", "wrongmsg", "other", "stale"}
   MaxArrivals = 3
   MaxPerParty = 1
-  MaxInvalid = 3
+  MaxInvalid = 1
 INVARIANT GPrint
 CHECK_DEADLOCK FALSE
